@@ -91,7 +91,43 @@ theorem Core.record {V : St → List Val} {s s' : St} {cs : List Nat} (hc : Core
       · next hcons =>
         rw [if_neg hcons]
         exact ⟨by rw [hlinks0, this.1], fun _ => by rw [hiter0, this.2]⟩
-  refine ⟨by rw [hv, hd]; simp [hc.len], ?_, ?_, hq, ?_, by rw [hst']; exact hph, ?_⟩
+  have hcomp : ∀ i, consumes (items V s') i = true → ∃ o, (i, o) ∈ s'.links := by
+    intro i hi
+    have hn := items_length V s hc.len
+    have hsub : ∀ l, l ∈ s.links → l ∈ s'.links := by
+      intro l hl
+      by_cases h7 : isOper 237000 (dd, v) = true
+      · obtain ⟨_, _, _, e3⟩ := h237 h7
+        rw [e3]; exact hl
+      · have := hsv (by simpa using h7)
+        split at this
+        · obtain ⟨y, rest, _, e2, _⟩ := this
+          rw [e2]; exact List.mem_cons_of_mem _ hl
+        · rw [this.1]; exact hl
+    rw [hits] at hi
+    by_cases hlt : i < (items V s).length
+    · rw [consumes_snoc_lt _ _ _ hlt] at hi
+      obtain ⟨o, ho⟩ := hc.complete i hi
+      exact ⟨o, hsub _ ho⟩
+    · have hi2 : i = (items V s).length := by
+        have : i < (items V s ++ [(dd, v)]).length := by
+          rw [consumes_eq] at hi
+          cases hg : (items V s ++ [(dd, v)])[i]? with
+          | none => rw [hg] at hi; cases hi
+          | some it => exact (List.getElem?_eq_some_iff.mp hg).1
+        simp only [List.length_append, List.length_singleton] at this
+        omega
+      subst hi2
+      rw [consumes_snoc_eq, (FInv.fold cs (items V s)).qa.symm, ← hc.qa] at hi
+      have h7 : isOper 237000 (dd, v) = false := by
+        cases h7 : isOper 237000 (dd, v) with
+        | false => rfl
+        | true => rw [oper_not_consumer _ _ _ h7] at hi; cases hi
+      have := hsv h7
+      rw [if_pos hi] at this
+      obtain ⟨y, rest, _, e2, _⟩ := this
+      exact ⟨y.1, by rw [e2, hn]; exact List.mem_cons_self⟩
+  refine ⟨by rw [hv, hd]; simp [hc.len], ?_, ?_, hq, ?_, by rw [hst']; exact hph, ?_, hcomp⟩
   · rw [hst', step_links, hfin]; exact hsrv.1.symm
   · rw [hst', step_qa, hqa, hc.qa]
   · intro c hcm; have := hc.cs_le c hcm; omega
@@ -134,7 +170,8 @@ theorem Core.congr {V : St → List Val} {s s' : St} {cs : List Nat} (hc : Core 
     · rw [if_neg h, if_neg (fun h' => h (hcnt.mp h'))]
   have hest : estV s' cs (foldItems cs (items V s)) = estV s cs (foldItems cs (items V s)) := by
     unfold estV; rw [hd, hvw]
-  refine ⟨by rw [hv, hd]; exact hc.len, ?_, ?_, hq, by rw [hd]; exact hc.cs_le, by rw [hi]; exact hph, ?_⟩
+  refine ⟨by rw [hv, hd]; exact hc.len, ?_, ?_, hq, by rw [hd]; exact hc.cs_le, by rw [hi]; exact hph, ?_,
+    by rw [hi, hl]; exact hc.complete⟩
   · rw [hi, hl]; exact hc.links
   · rw [hi, hqa]; exact hc.qa
   · rw [hi]
@@ -232,7 +269,26 @@ theorem Core.bit {V : St → List Val} {s s' : St} {cs : List Nat} (hc : Core V 
   have hvw' : vw s' (foldItems cs (items V s')) = step cs (foldItems cs (items V s)) (dd, v) := by
     rw [vw_of_counting _ _ h1, hst']
   have hlen' : s'.descs.length = s.descs.length + 1 := by rw [hd]; simp
-  refine ⟨by rw [hv, hd]; simp [hc.len], ?_, ?_, hq, ?_, ?_, ?_⟩
+  have hcomp : ∀ i, consumes (items V s') i = true → ∃ o, (i, o) ∈ s'.links := by
+    intro i hi
+    rw [hits] at hi
+    rw [hl]
+    by_cases hlt : i < (items V s).length
+    · rw [consumes_snoc_lt _ _ _ hlt] at hi
+      exact hc.complete i hi
+    · exfalso
+      have hi2 : i = (items V s).length := by
+        have : i < (items V s ++ [(dd, v)]).length := by
+          rw [consumes_eq] at hi
+          cases hg : (items V s ++ [(dd, v)])[i]? with
+          | none => rw [hg] at hi; cases hi
+          | some it => exact (List.getElem?_eq_some_iff.mp hg).1
+        simp only [List.length_append, List.length_singleton] at this
+        omega
+      subst hi2
+      rw [consumes_snoc_eq, bit_not_consumer _ _ hb] at hi
+      cases hi
+  refine ⟨by rw [hv, hd]; simp [hc.len], ?_, ?_, hq, ?_, ?_, ?_, hcomp⟩
   · rw [hst', step_links, hfin, hcan, hsrv, hl]; exact hc.links
   · rw [hst', step_qa, hqa, hc.qa]
   · intro c hcm; have := hc.cs_le c hcm; omega
@@ -366,7 +422,7 @@ theorem Core.build {P : Prims} {V : St → List Val} {X : St → Prop} (hR : Rec
     have hvw' : ∀ s2 : St, s2.regs.bitmapDef = .na →
         vw s2 (foldItems cs (items V s)) = finalize (foldItems cs (items V s)) :=
       fun s2 h2 => vw_of_not_counting _ _ (by rw [h2]; exact fun x => nomatch x)
-    refine ⟨by rw [hR.setRegs, hR.setRegs]; exact hc.len, ?_, ?_, hc.quiet, hc.cs_le, ?_, ?_⟩
+    refine ⟨by rw [hR.setRegs, hR.setRegs]; exact hc.len, ?_, ?_, hc.quiet, hc.cs_le, ?_, ?_, by rw [hi]; exact hc.complete⟩
     · rw [hi]; exact hc.links
     · rw [hi]; exact hc.qa
     · rw [hi]
@@ -396,7 +452,7 @@ theorem Core.cancel {V : St → List Val} (hS : ∀ s f, V (s.setRegs f) = V s) 
     items_congr V _ _ rfl (hS _ _)
   have hf : foldItems (cs ++ [s.descs.length]) (items V s) = foldItems cs (items V s) :=
     foldItems_cancel_end cs _ _ (by rw [items_length V s hc.len]; exact Nat.le_refl _)
-  refine ⟨by rw [hS]; exact hc.len, ?_, ?_, hc.quiet, ?_, ?_, ?_⟩
+  refine ⟨by rw [hS]; exact hc.len, ?_, ?_, hc.quiet, ?_, ?_, ?_, by rw [hi]; exact hc.complete⟩
   · rw [hi, hf]; exact hc.links
   · rw [hi, hf]; exact hc.qa
   · intro c hcm
